@@ -252,12 +252,29 @@ def annotation_diagnosis(s):
                 flagged.append('other')
             if x.is_comb():
                 h = x.head
+                if h.is_const() and hasattr(h, 'print_type') and operator.get_binder_info_for_fun(h) is not None \
+                        and x.args and x.args[-1].is_abs():
+                    vt = x.args[-1].var_T
+                    if vt.is_fun() or (vt.is_tconst() and len(vt.args) > 0):
+                        # the binder constant was chosen although its own bound variable has a compound type that
+                        # could carry the annotation (the recorded finding is about terms with no such candidate)
+                        flagged.append('binder-over-compound')
                 walk(h, True)
                 for a in x.args:
                     walk(a, False)
             elif x.is_abs():
                 walk(x.body, False)
         walk(t, False)
+
+        def has_compound_binder(x):
+            if x.is_abs():
+                vt = x.var_T
+                return vt.is_fun() or (vt.is_tconst() and len(vt.args) > 0) or has_compound_binder(x.body)
+            if x.is_comb():
+                return has_compound_binder(x.fun) or has_compound_binder(x.arg)
+            return False
+        if 'binder-over-compound' in flagged:
+            return 'annotation-missing-although-the-bound-variable-of-compound-type-could-carry-it'
         if 'operator' in flagged:
             return 'annotation-chosen-on-operator-or-binder-constant-is-not-rendered'
         return 'underdetermined-other'
@@ -616,6 +633,28 @@ def two_faced_equals(rng, g):
     return t
 
 
+def unpinned_binder_terms(rng):
+    """quantifiers / lambdas over a bound variable of COMPOUND type that nothing in the body pins down (s Sub s,
+    f x = f x, s Un s = s): the printer has to annotate the bound variable itself"""
+    ta, tb = ('tv', 'a'), ('tv', 'b')
+    T = rng.choice([setT(ta), setT(NAT), S.fun(ta, tb), S.fun(ta, ta), listT(ta), S.fun(NAT, ta)])
+    b0, b1 = ('bound', 0), ('bound', 1)
+    Q = lambda q, nm, TT, body: ('comb', ('const', q, S.fun(S.fun(TT, B), B)), ('abs', nm, TT, body))
+    eq = lambda TT, x, y: S.mk_comb(('const', 'equals', S.funs(TT, TT, B)), x, y)
+    forms = [Q(rng.choice(['all', 'exists']), 's', T, eq(T, b0, b0))]
+    if T[1] == 'set':
+        E = T[2][0]
+        sub = lambda x, y: S.mk_comb(('const', 'subset', S.funs(T, T, B)), x, y)
+        un = lambda x, y: S.mk_comb(('const', 'union', S.funs(T, T, T)), x, y)
+        forms += [Q('all', 's', T, sub(b0, b0)), Q('all', 'A', T, Q('all', 'B', T, S.mk_comb(('const', 'implies', S.funs(B, B, B)), sub(b1, b0), eq(T, un(b1, b0), b0)))),
+                  Q('all', 's', T, eq(T, un(b0, b0), b0))]
+    if T[1] == 'fun':
+        D, R = T[2]
+        forms += [Q('exists', 'f', T, Q('all', 'x', D, eq(R, ('comb', b1, b0), ('comb', b1, b0)))),
+                  ('abs', 'f', T, ('abs', 'x', D, ('comb', b1, b0)))]
+    return rng.choice(forms)
+
+
 def run_gen(ctx, spec):
     rng = ctx.rng
     sig = build_sig()
@@ -641,6 +680,16 @@ def run_gen(ctx, spec):
             s = clashify(rng, s)          # alpha-equivalent renaming of binders towards free / enclosing names
             ctx.count('name_clash_variants')
         nt = S.size(s) >= 4 and s[0] in ('comb', 'abs')
+        if k % 6 == 0:
+            # a family that has ONE mechanism key of its own (its members round-trip on the unchanged tree)
+            u = unpinned_binder_terms(rng)
+            if term_ok(u):
+                ctx.count('unpinned_binder_terms')
+                bad = [r for r in roundtrip_term(ctx, u, [(False, None, False), (True, None, False)]) if r[1] is not None]
+                if bad:
+                    ctx.violation('directed:binder-over-a-bound-variable-of-compound-type-that-the-body-does-not-pin',
+                                  '%s under unicode=%s printed as %r -> %s' % (S.tm_str(u, True), bad[0][0][0], bad[0][3], bad[0][1]),
+                                  {'kind': 'term', 'term': S.jsonable(u), 'setting': list(bad[0][0]), 'problem': bad[0][1]})
         judge_term(ctx, s, 'generated')
         if k % 3 == 0:
             memo_differential(ctx, s)
